@@ -26,6 +26,7 @@ type D struct {
 	// two calls of the same function are different values.
 	CallIdentity bool
 	depth        int
+	inLit        map[*ssa.Alloc]bool
 }
 
 func (p *Prog) D() *D { return &D{P: p} }
@@ -312,10 +313,23 @@ func StructLitFields(a *ssa.Alloc) (map[string]ssa.Value, bool) {
 }
 
 func (d *D) structLit(a *ssa.Alloc) string {
+	if a.Heap {
+		// a heap object (e.g. c := &T{...} later mutated field by field) is an
+		// identity, not a value: do not expand it
+		return ""
+	}
+	if d.inLit[a] {
+		return ""
+	}
 	fields, ok := StructLitFields(a)
 	if !ok {
 		return ""
 	}
+	if d.inLit == nil {
+		d.inLit = map[*ssa.Alloc]bool{}
+	}
+	d.inLit[a] = true
+	defer delete(d.inLit, a)
 	var names []string
 	for n := range fields {
 		names = append(names, n)
@@ -408,6 +422,12 @@ func globalName(g *ssa.Global) string {
 }
 
 func allocName(a *ssa.Alloc) string {
+	if a.Heap {
+		pt, _ := a.Type().Underlying().(*types.Pointer)
+		if pt != nil {
+			return "new:" + typeShort(pt.Elem()) + "@" + a.Name()
+		}
+	}
 	if a.Comment != "" {
 		return "local:" + a.Comment
 	}
